@@ -52,8 +52,11 @@ pub fn gen_phase(rng: &mut Rng) -> f64 {
 		0 => 0.0,
 		1 => rng.pick(&[PI / 2.0, PI, 3.0 * PI / 2.0, TAU, 1.0, 0.75 * TAU, 2.5 * TAU]),
 		// negative phases (radians are signed: -π/2 is a perfectly ordinary phase)
-		2 => rng.pick(&[-PI / 2.0, -PI, -3.5, -5.0, -TAU, -0.75 * TAU - 0.1]),
-		3 => rng.uniform(-7.0, 0.0),
+		2 => rng.pick(&[-PI / 2.0, -PI, -3.5, -5.0, -TAU, -0.75 * TAU - 0.1, -2.5 * TAU]),
+		// rem_euclid corners: a tiny negative remainder rounds to exactly 1.0; -0.0 and whole negative
+		// numbers of cycles give a remainder of -0.0, which is not < 0.0
+		3 => rng.pick(&[-1e-17, -1e-300, -0.0, -2.0 * TAU, -1e-15, -f64::MIN_POSITIVE]),
+		4 | 5 | 6 => rng.uniform(-7.0, 0.0),
 		_ => rng.uniform(0.0, 7.0),
 	}
 }
@@ -64,7 +67,8 @@ pub fn gen_fixed(rng: &mut Rng, what: u8) -> f64 {
 		0 => match rng.below(10) {
 			0 => 0.0,
 			1 => rng.pick(&[0.5, 1.0, 2.0, 4.0, 10.0, 0.25]),
-			2 => rng.pick(&[-1.0, -0.5]),
+			2 => rng.pick(&[-1.0, -0.5, -2.0, -1e-20, -1e-300]),
+			3 | 4 => rng.uniform(-20.0, 0.0),
 			_ => rng.uniform(0.0, 20.0),
 		},
 		// amplitude / offset
@@ -84,7 +88,8 @@ fn gen_setting(rng: &mut Rng, what: u8) -> String {
 
 /// Reference waveforms, written from the documentation ("moves back and forth smoothly / at a
 /// constant speed / gradually in one direction then jumps / jumps between two values"), for a phase
-/// in [0, 1).  `None` = too close to a discontinuity to compare.
+/// in [0, 1) (the caller reduces `phase0 + f·t` with `x - floor(x)`, whatever its sign).
+/// `None` = too close to a discontinuity to compare.
 pub fn reference_wave(w: Waveform, p: f64) -> Option<f64> {
 	let near = |x: f64| (p - x).abs() < 1e-6 || (p - x - 1.0).abs() < 1e-6 || (p - x + 1.0).abs() < 1e-6;
 	match w {
@@ -130,8 +135,6 @@ struct Run {
 	amp: Parameter<f64>,
 	off: Parameter<f64>,
 	waveform: Waveform,
-	/// the code's phase recurrence, only used to classify (negative phase or not)
-	phase: f64,
 	pending: Pending,
 	/// "pure" = all three settings fixed and never changed, waveform never changed, phase never set:
 	/// the documented curve is known in closed form
@@ -166,10 +169,9 @@ pub fn run(ops: &[String]) -> Vec<String> {
 					// ModulatorBuilder::build is the public way to obtain the Box<dyn Modulator>
 					let (m, h) = b.build(ids.mods[0]);
 					out.put(h64(m.value()));
+					// negative frequencies and phases are ordinary inputs: the curve runs backwards / starts earlier
 					let pure = match (f, a, o) {
-						(Value::Fixed(f), Value::Fixed(a), Value::Fixed(o)) if f >= 0.0 && ph >= 0.0 => {
-							Some((f, a, o, ph / TAU))
-						}
+						(Value::Fixed(f), Value::Fixed(a), Value::Fixed(o)) => Some((f, a, o, ph / TAU)),
 						_ => None,
 					};
 					run = Some(Run {
@@ -179,7 +181,6 @@ pub fn run(ops: &[String]) -> Vec<String> {
 						amp: Parameter::new(a, 1.0),
 						off: Parameter::new(o, 0.0),
 						waveform,
-						phase: ph / TAU,
 						pending: Pending::default(),
 						pure,
 						elapsed: 0.0,
@@ -232,8 +233,8 @@ pub fn run(ops: &[String]) -> Vec<String> {
 						r.pure = None;
 					}
 					if let (Some(ph), Some((f, a, o, _))) = (p.phase, r.pure) {
-						// a new (non-negative) phase restarts the closed-form curve from that phase
-						r.pure = if ph >= 0.0 { Some((f, a, o, ph / TAU)) } else { None };
+						// a new phase (of any sign) restarts the closed-form curve from that phase
+						r.pure = Some((f, a, o, ph / TAU));
 						r.elapsed = 0.0;
 					}
 					if let Some((v, tw)) = p.frequency {
@@ -248,9 +249,6 @@ pub fn run(ops: &[String]) -> Vec<String> {
 					if let Some(w) = p.waveform {
 						r.waveform = w;
 					}
-					if let Some(ph) = p.phase {
-						r.phase = ph / TAU;
-					}
 					out.put("ok");
 				}
 				"update" => {
@@ -264,22 +262,20 @@ pub fn run(ops: &[String]) -> Vec<String> {
 					r.freq.update(dt, &info);
 					r.amp.update(dt, &info);
 					r.off.update(dt, &info);
-					r.phase += dt * r.freq.value();
-					r.phase %= 1.0;
 					let (a, o) = (r.amp.value(), r.off.value());
 					if v.is_finite() && a.is_finite() && o.is_finite() {
-						// stays within offset ± |amplitude|
+						// stays within offset ± |amplitude| — for every phase and frequency, negative ones included
 						let slack = 1e-12 * (1.0 + a.abs() + o.abs());
 						if (v - o).abs() > a.abs() + slack {
-							let class = if r.phase < 0.0 { "negphase" } else { "phase>=0" };
-							out.oracle_fail("lfo_range", format!("{} :: {} wf={}", l, class, wf_name(r.waveform)));
+							out.oracle_fail("lfo_range", format!("{} :: wf={}", l, wf_name(r.waveform)));
 						}
 					}
 					// the documented curve, where it is known in closed form
 					if let Some((f, a, o, p0)) = r.pure {
 						r.elapsed += dt;
 						let cycles = p0 + f * r.elapsed;
-						if cycles < 1e6 {
+						if cycles.abs() < 1e6 {
+							// Euclidean fractional part: in [0, 1] also for negative `cycles`
 							let p = cycles - cycles.floor();
 							if let Some(w) = reference_wave(r.waveform, p) {
 								let expect = o + a * w;
@@ -311,18 +307,14 @@ pub fn gen(rng: &mut Rng, n: usize, _thorough: bool, stats: &mut Stats) -> Vec<S
 		out.push(format!("case {}", case));
 		// some cases: everything fixed for the whole case (the closed-form curve applies)
 		let pure = rng.chance(1, 3);
-		let mut setting = |rng: &mut Rng, what: u8| -> String {
+		let setting = |rng: &mut Rng, what: u8| -> String {
 			if pure {
-				let mut x = gen_fixed(rng, what);
-				if what == 0 {
-					x = x.abs();
-				}
-				format!("fix:{}", o64(x))
+				format!("fix:{}", o64(gen_fixed(rng, what)))
 			} else {
 				gen_setting(rng, what)
 			}
 		};
-		let ph = if pure { gen_phase(rng).abs() } else { gen_phase(rng) };
+		let ph = gen_phase(rng);
 		stats.hit(if pure { "case_pure" } else { "case_general" });
 		if ph < 0.0 {
 			stats.hit("negative_starting_phase");
@@ -330,12 +322,19 @@ pub fn gen(rng: &mut Rng, n: usize, _thorough: bool, stats: &mut Stats) -> Vec<S
 		let wf = gen_waveform(rng);
 		stats.hit(&format!("wf_{}", &wf[..3]));
 		let (f, a, o) = (setting(rng, 0), setting(rng, 1), setting(rng, 1));
+		if f.starts_with("fix:") && p64(&f[4..]) < 0.0 {
+			stats.hit("negative_frequency");
+		}
 		out.push(format!("new {} {} {} {} {}", wf, f, a, o, o64(ph)));
 		let steps = rng.range(6, 30);
 		for _ in 0..steps {
 			if pure && rng.chance(1, 12) {
 				// the handle sets a new phase: takes effect at the next on_start_processing
-				out.push(format!("set_phase {}", o64(gen_phase(rng).abs())));
+				let p = gen_phase(rng);
+				if p < 0.0 {
+					stats.hit("negative_set_phase");
+				}
+				out.push(format!("set_phase {}", o64(p)));
 				out.push("start".into());
 				stats.hit("set_phase");
 				stats.hit("start");
